@@ -287,7 +287,7 @@ def writeCell (x : Ext) (c : XC) : Bytes :=
   ++ (if c.v ≠ [] then lit "<v>" ++ escapeText c.v ++ lit "</v>" else [])
   ++ (match c.is with
       | .none => []
-      | .runs xml => if xml ≠ [] then lit "<is>" ++ xml ++ lit "</is>" else []
+      | .runs xml => lit "<is>" ++ xml ++ lit "</is>"
       | .text val sp => lit "<is><t" ++ spaceAttr sp ++ lit ">" ++ inlineText x val ++ lit "</t></is>")
   ++ lit "</c>"
 
@@ -472,12 +472,14 @@ def mergeBlock (s : SW) : Bytes :=
     lit "<mergeCells count=\"" ++ itoa s.mergeCount ++ lit "\">" ++ s.mergeCells ++ lit "</mergeCells>"
   else []
 
-/-- what `Flush` writes: the three `bulkAppendFields` ranges are the regenerated literals of the Go function
-(`Facts.C11.bulk_Flush`), the merge block and the table parts are hand-written between them -/
+/-- what `Flush` writes: the `bulkAppendFields` ranges are the regenerated literals of the Go function
+(`Facts.C11.bulk_Flush`); the merge block is hand-written between the first two; the table parts are written once —
+`AddTable`'s element if there is one, otherwise the worksheet's own field — and the extension list follows -/
 def epilogBytes (s : SW) (e : Epilog) : Bytes :=
   match Facts.C11.bulk_Flush with
-  | [r1, r2, r3] =>
-    lit "</sheetData>" ++ bulk e r1 ++ mergeBlock s ++ bulk e r2 ++ e.tableParts ++ bulk e r3 ++ lit "</worksheet>"
+  | [r1, r2, r3, r4] =>
+    lit "</sheetData>" ++ bulk e r1 ++ mergeBlock s ++ bulk e r2
+      ++ (if e.tableParts ≠ [] then e.tableParts else bulk e r3) ++ bulk e r4 ++ lit "</worksheet>"
   | _ => []
 
 /-- `Flush` -/
